@@ -40,7 +40,10 @@ DEFS = {
                   coq='(mkud "smoot" (Some "smt") [] 67 1 [("inch", mkq 1 1)] false)', keys=["smoot", "smt"]),
     "blip": dict(line="blip = 2 * foot", coq='(mkud "blip" None [] 2 1 [("foot", mkq 1 1)] false)', keys=["blip"]),
     "zork": dict(line="zork = [zorkiness]", coq='(mkud "zork" None [] 1 1 [("[zorkiness]", mkq 1 1)] true)', keys=["zork"]),
+    # a DIFFERENT definition of blip, given to the second registry only (isolation stream)
+    "blip_t": dict(line="blip = 5 * second", coq='(mkud "blip" None [] 5 1 [("second", mkq 1 1)] false)', keys=["blip"]),
 }
+MAIN_DEFS = ["blip", "smoot", "zork"]
 # contexts the model knows: name -> redefinitions (name, integer scale, reference)
 CTX = {
     "ra": [("inch", 3, {"centimeter": 1})],
@@ -287,43 +290,89 @@ def parallel(fn, tasks, nproc=None):
 
 # ------------------------------------------------------------------ the fresh-registry oracle
 class Fresh:
-    """answers of a freshly built registry.  One never-queried registry per set of definitions,
-    built from definition files; every question is asked in a fork()ed copy after enabling the
-    contexts and setting the default system."""
+    """answers of a freshly built registry.  One SERVER PROCESS per set of definitions: it builds
+    its registry from definition files (default_en.txt + the defined lines), never queries it, and
+    answers every question in a fork()ed copy after enabling the contexts and setting the default
+    system.  Registries of different declarative states therefore never share a process image
+    with each other or with the registries under test."""
 
     def __init__(self):
         self.dir = tempfile.mkdtemp(prefix="c13_")
         for n in ("default_en.txt", "constants_en.txt"):
             shutil.copy(REPO / "pint" / n, os.path.join(self.dir, n))
-        self.pristine = {}
+        self.servers = {}
         self.memo = {}
         self.builds = 0
         self.asked = 0
 
     def close(self):
+        for defs, (pid, w, r, lock) in self.servers.items():
+            try:
+                os.write(w, (0).to_bytes(8, "big"))
+                os.close(w)
+                os.close(r)
+                os.waitpid(pid, 0)
+            except OSError:
+                pass
+        self.servers = {}
         shutil.rmtree(self.dir, ignore_errors=True)
 
-    def registry(self, defs):
-        defs = tuple(defs)
-        if defs not in self.pristine:
-            fn = os.path.join(self.dir, "reg_" + "_".join(defs) + ".txt")
+    def deffile(self, defs):
+        fn = os.path.join(self.dir, "reg_" + "_".join(defs) + ".txt")
+        if not os.path.exists(fn):
             with open(fn, "w") as f:
                 f.write("@import default_en.txt\n" + "".join(DEFS[d]["line"] + "\n" for d in defs))
-            self.pristine[defs] = new_registry(fn)
-            self.builds += 1
-        return self.pristine[defs]
+        return fn
+
+    def build(self, defs):
+        """a file-built registry in THIS process (used by throw-away children only)"""
+        return new_registry(self.deffile(tuple(defs)))
+
+    def server(self, defs):
+        defs = tuple(defs)
+        if defs in self.servers:
+            return
+        fn = self.deffile(defs)
+        c2p_r, c2p_w = os.pipe()
+        p2c_r, p2c_w = os.pipe()
+        pid = os.fork()
+        if pid == 0:
+            try:
+                os.close(c2p_r)
+                os.close(p2c_w)
+                self._serve(fn, p2c_r, c2p_w)
+            finally:
+                os._exit(0)
+        os.close(c2p_w)
+        os.close(p2c_r)
+        self.servers[defs] = (pid, p2c_w, c2p_r, os.path.join(self.dir, "lock_" + "_".join(defs)))
+        self.builds += 1
+
+    def _serve(self, fn, rfd, wfd):
+        ureg = new_registry(fn)
+        while True:
+            hdr = _readn(rfd, 8)
+            n = int.from_bytes(hdr, "big") if len(hdr) == 8 else 0
+            if n == 0:
+                return
+            tasks = pickle.loads(_readn(rfd, n))
+            res = parallel(lambda t: self._ask(ureg, t), tasks, nproc=4)
+            out = pickle.dumps(res)
+            os.write(wfd, len(out).to_bytes(8, "big"))
+            _writeall(wfd, out)
 
     def prebuild(self):
-        """every set of definitions (so that fork()ed workers never build)"""
+        """a server for every set of definitions (so that fork()ed workers can use all of them)"""
         import itertools
         names = sorted(DEFS)
         for n in range(len(names) + 1):
             for c in itertools.combinations(names, n):
-                self.registry(c)
+                if not ("blip" in c and "blip_t" in c):
+                    self.server(c)
 
-    def _ask(self, task):
-        (defs, active, system), q = task
-        ureg = self.pristine[tuple(defs)]
+    @staticmethod
+    def _ask(ureg, task):
+        (active, system), q = task
 
         def child():
             import numpy as np
@@ -332,40 +381,80 @@ class Fresh:
             if system != "mks":
                 ureg.default_system = system
             w = World(ureg)
-            if q[0] == "qdim_of":
-                qq = ureg.Quantity(np.array([1.0, 2.0]), ureg.UnitsContainer({k: (int(v) if v.denominator == 1 else v) for k, v in q[1].items()}))
+            if q[0] in ("qdim_of", "qcheck_of"):
                 try:
-                    return ("dim", ucd(qq.dimensionality))
-                except Exception as e:      # noqa: BLE001
-                    return ("err", err_kind(e))
-            if q[0] == "qcheck_of":
-                qq = ureg.Quantity(np.array([1.0, 2.0]), ureg.UnitsContainer({k: (int(v) if v.denominator == 1 else v) for k, v in q[1].items()}))
-                try:
+                    qq = ureg.Quantity(np.array([1.0, 2.0]), ureg.UnitsContainer({k: (int(v) if v.denominator == 1 else v) for k, v in q[1].items()}))
+                    if q[0] == "qdim_of":
+                        return ("dim", ucd(qq.dimensionality))
                     return ("str", str(qq.check(q[2])))
                 except Exception as e:      # noqa: BLE001
                     return ("err", err_kind(e))
             return w.do(0, q)
         return forked(child)
 
+    def _call(self, groups):
+        """groups: {defs: [task, ...]} -> {defs: [answer, ...]}; requests go out to all servers
+        first, then the replies are collected; one lock per server (workers share the pipes)"""
+        import fcntl
+        locks = []
+        try:
+            for defs in sorted(groups):
+                pid, w, r, lock = self.servers[defs]
+                lf = open(lock, "w")
+                fcntl.flock(lf, fcntl.LOCK_EX)
+                locks.append(lf)
+                out = pickle.dumps(groups[defs])
+                os.write(w, len(out).to_bytes(8, "big"))
+                _writeall(w, out)
+            res = {}
+            for defs in sorted(groups):
+                pid, w, r, lock = self.servers[defs]
+                n = int.from_bytes(_readn(r, 8), "big")
+                res[defs] = pickle.loads(_readn(r, n))
+            return res
+        finally:
+            for lf in locks:
+                fcntl.flock(lf, fcntl.LOCK_UN)
+                lf.close()
+
     def answers(self, tasks):
-        """tasks: list of (state, question); returns the list of fresh answers (memoised)"""
-        todo = []
-        seen = set()
+        """tasks: list of ((defs, active, system), question); returns the fresh answers (memoised)"""
+        groups, seen = {}, set()
         for t in tasks:
             k = repr(t)
             if k not in self.memo and k not in seen:
                 seen.add(k)
-                todo.append(t)
-        for t in todo:
-            self.registry(t[0][0])          # build before forking the workers
-        res = parallel(self._ask, todo)
-        self.asked += len(todo)
-        for t, a in zip(todo, res):
-            self.memo[repr(t)] = a
-        return [self.memo[repr(t)] for t in tasks]
+                (defs, active, system), q = t
+                groups.setdefault(tuple(defs), []).append(((tuple(active), system), q))
+        if groups:
+            for defs in groups:
+                self.server(defs)
+            res = self._call(groups)
+            for defs, ts in groups.items():
+                for ((active, system), q), a in zip(ts, res[defs]):
+                    self.memo[repr(((defs, active, system), q))] = a
+                    self.asked += 1
+        return [self.memo[repr(((tuple(t[0][0]), tuple(t[0][1]), t[0][2]), t[1]))] for t in tasks]
 
     def answer(self, state, q):
         return self.answers([(state, q)])[0]
+
+
+def _readn(fd, n):
+    buf = b""
+    while len(buf) < n:
+        c = os.read(fd, n - len(buf))
+        if not c:
+            break
+        buf += c
+    return buf
+
+
+def _writeall(fd, data):
+    mv = memoryview(data)
+    while len(mv):
+        k = os.write(fd, mv[:65536])
+        mv = mv[k:]
 
 
 QUERY_KINDS = {"convert", "parse", "root", "dim", "base", "compat", "qdim", "qcheck", "fmt", "qfmt", "compact", "to",
@@ -481,7 +570,7 @@ def classify_strings():
     from pint.util import ParserHelper
     fr = Fresh()
     try:
-        ureg = fr.registry(tuple(sorted(DEFS)))
+        ureg = fr.build(tuple(MAIN_DEFS))
         prefixes = [x for x in ureg._prefixes if x]
         out, tk = {}, {}
         for s in ALL_STRINGS:
@@ -499,7 +588,7 @@ def classify_strings():
                 cands = () if n in ureg._units else ureg.parse_unit_name(n)
                 if n in ureg._units or cands:
                     uname = ureg._units[n].name if n in ureg._units else cands[0][1]
-                    if uname in DEFS and cl == "":
+                    if uname in MAIN_DEFS and cl == "":
                         cl = "defined"
                     continue
                 for p in prefixes:
@@ -520,7 +609,7 @@ def system_tables():
     ureg = new_registry()
     fr = Fresh()
     try:
-        r2 = fr.registry(("smoot",))
+        r2 = fr.build(("smoot",))
         out = {}
         for s in SYSTEMS:
             sysobj = ureg._systems[s]
@@ -606,8 +695,8 @@ def coq_op(op):
 
 def coq_node(op, ans, active_rules, kids):
     if op[0] == "mkother":
-        io, cmpb = "(false, OOther)", False
-    elif op[0] == "other":
+        return "Fresh2 " + coq_list(kids)
+    if op[0] == "other":
         t, cmpb = coq_op(op[1])
         io = f"(true, {t})"
     else:
@@ -665,7 +754,7 @@ def random_ops(rng, n, model_only=True, with_other=True):
         elif x < 0.66:
             op = ("compat", rng.choice(US_RAW))
         elif x < 0.71:
-            op = ("define", rng.choice(list(DEFS)))
+            op = ("define", rng.choice(MAIN_DEFS))
         elif x < 0.79:
             op = ("enable", rng.choice(["ra", "rb", "rn", "ra", "rb"] + ([] if model_only else ["sp"])))
         elif x < 0.86:
@@ -709,6 +798,31 @@ EXH_ALPHABET = [
     ("define", "smoot"), ("compat", "meter"), ("parse", "kiloinch"), ("parse", "millikiloinch"),
     ("convert", "smoot", "foot"), ("setsys", "imperial"), ("setsys", None), ("other", ("base", "foot", None)),
 ]
+
+def isolation_histories():
+    """two registries with DIFFERENT declarative states ask the same questions in turn: whatever
+    is shared between registries by name (a class-level or module-level table) shows"""
+    hs = []
+    qs = [("convert", "blip", "meter"), ("convert", "blip", "second"), ("parse", "blip"), ("root", "blip"), ("dim", "blip"),
+          ("base", "blip", None), ("compat", "blip"), ("root", "kiloblip"), ("convert", "kiloblip", "km")]
+    for q in qs:
+        hs.append([("define", "blip"), q, ("mkother",), ("other", ("define", "blip_t")), ("other", q), q, ("other", q)])
+        hs.append([("mkother",), ("other", ("define", "blip_t")), ("other", q), ("define", "blip"), q, ("other", q), q])
+    for q in [("parse", "zork"), ("dim", "zork"), ("root", "zork"), ("compat", "zork"), ("base", "zork", None), ("convert", "zork", "zork"),
+              ("parse", "smt"), ("dim", "kilosmoot"), ("convert", "smoot", "meter")]:
+        d = "zork" if "zork" in q[1] else "smoot"
+        hs.append([("define", d), q, ("mkother",), ("other", q), q, ("other", q)])
+        hs.append([("mkother",), ("other", ("define", d)), ("other", q), q, ("other", q), q])
+    hs.append([("enable", "rb"), ("base", "foot", None), ("root", "foot"), ("convert", "foot", "meter"), ("mkother",),
+               ("other", ("base", "foot", None)), ("other", ("root", "foot")), ("other", ("convert", "foot", "meter")), ("disable",),
+               ("other", ("enable", "ra")), ("other", ("root", "inch")), ("root", "inch"), ("convert", "inch", "meter"),
+               ("other", ("convert", "inch", "meter"))])
+    hs.append([("setsys", "imperial"), ("base", "meter", None), ("compat", "meter"), ("mkother",), ("other", ("base", "meter", None)),
+               ("other", ("compat", "meter")), ("other", ("setsys", "cgs")), ("other", ("base", "meter", None)), ("base", "meter", None)])
+    hs.append([("qnew", "meter"), ("qdim",), ("mkother",), ("other", ("qnew", "second")), ("other", ("qdim",)), ("qdim",),
+               ("parse", "kiloinch"), ("other", ("parse", "millikiloinch"))])
+    return hs
+
 
 WITNESSES = {
     # quirk index in QK: (history, description)
@@ -942,6 +1056,8 @@ def _run(ck, rng, thorough, klass, tk, systems, fresh, chk, coq_ok):
     hists += [("orc", i, random_ops(random.Random(rng.random()), n_len, model_only=False)) for i in range(n_orc)]
     for i, h in WITNESSES.items():
         hists.append(("wit", i, h))
+    for i, h in enumerate(isolation_histories()):
+        hists.append(("iso", i, h))
     recs = parallel(lambda t: run_history(t[2]), hists)
     # exhaustive exploration: one fork tree per first operation
     T["histories"] = time.time()
